@@ -9,13 +9,15 @@ use crate::types::DataValue;
 /// Returns all rules of expression simplification.
 #[rustfmt::skip]
 pub fn rules() -> Vec<Rewrite> { vec![
+    // NOTE: rules must hold for NULL operands as well. `x * 0 => 0`, `x - x => 0`, `x = x => true`
+    // (and the other comparisons of an expression with itself), `null and x => null` and
+    // `null or x => null` do not, and have been removed.
     rw!("add-zero";  "(+ ?a 0)" => "?a"),
     rw!("add-comm";  "(+ ?a ?b)" => "(+ ?b ?a)"),
     rw!("add-assoc"; "(+ ?a (+ ?b ?c))" => "(+ (+ ?a ?b) ?c)"),
     rw!("add-same";  "(+ ?a ?a)" => "(* ?a 2)"),
     rw!("add-neg";   "(+ ?a (- ?b))" => "(- ?a ?b)"),
 
-    rw!("mul-zero";  "(* ?a 0)" => "0"),
     rw!("mul-one";   "(* ?a 1)" => "?a"),
     rw!("mul-minus"; "(* ?a -1)" => "(- ?a)"),
     rw!("mul-comm";  "(* ?a ?b)"        => "(* ?b ?a)"),
@@ -29,7 +31,6 @@ pub fn rules() -> Vec<Rewrite> { vec![
 
     rw!("sub-zero";   "(- ?a 0)" => "?a"),
     rw!("zero-sub";   "(- 0 ?a)" => "(- ?a)"),
-    rw!("sub-cancel"; "(- ?a ?a)" => "0"),
 
     rw!("div-cancel"; "(/ ?a ?a)" => "1" if is_not_zero("?a")),
 
@@ -38,12 +39,6 @@ pub fn rules() -> Vec<Rewrite> { vec![
 
     rw!("recip-mul-div"; "(* ?x (/ 1 ?x))" => "1" if is_not_zero("?x")),
 
-    rw!("eq-eq";     "(=  ?a ?a)" => "true"),
-    rw!("ne-eq";     "(<> ?a ?a)" => "false"),
-    rw!("gt-eq";     "(>  ?a ?a)" => "false"),
-    rw!("lt-eq";     "(<  ?a ?a)" => "false"),
-    rw!("ge-eq";     "(>= ?a ?a)" => "true"),
-    rw!("le-eq";     "(<= ?a ?a)" => "true"),
     rw!("eq-comm";   "(=  ?a ?b)" => "(=  ?b ?a)"),
     rw!("ne-comm";   "(<> ?a ?b)" => "(<> ?b ?a)"),
     rw!("gt-comm";   "(>  ?a ?b)" => "(<  ?b ?a)"),
@@ -70,7 +65,6 @@ pub fn rules() -> Vec<Rewrite> { vec![
 
     rw!("and-false"; "(and false ?a)"   => "false"),
     rw!("and-true";  "(and true ?a)"    => "?a"),
-    rw!("and-null";  "(and null ?a)"    => "null"),
     rw!("and-comm";  "(and ?a ?b)"      => "(and ?b ?a)"),
     rw!("and-assoc"; "(and ?a (and ?b ?c))" => "(and (and ?a ?b) ?c)"),
     
@@ -88,7 +82,6 @@ pub fn rules() -> Vec<Rewrite> { vec![
 
     rw!("or-false";  "(or false ?a)" => "?a"),
     rw!("or-true";   "(or true ?a)"  => "true"),
-    rw!("or-null";   "(or null ?a)"  => "null"),
     rw!("or-comm";   "(or ?a ?b)"    => "(or ?b ?a)"),
     rw!("or-assoc";  "(or ?a (or ?b ?c))" => "(or (or ?a ?b) ?c)"),
 
